@@ -99,7 +99,7 @@ TOFIX        alpha[i] = abs(values[i]) * 2 * Pi * rf * duration / len(values)
         # create operator
         name = kwargs.pop("name", f"RFPulse({len(values)}, {duration}ms)")
         # total duration (per-sample durations are carried by the samples' own operators)
-        total = duration if np.isscalar(duration) else float(np.sum(duration))
+        total = float(duration) if np.ndim(duration) == 0 else float(np.sum(duration))
         super().__init__(seq, name=name, duration=total)
 
 
@@ -174,8 +174,8 @@ def make_pulse_sequence(transform, values, duration, rf, offset=None):
         values = values.reshape((nvalue,) + (1,) * ndim)
 
     # operator durations
-    if np.isscalar(duration):
-        durations = np.ones(nvalue) * duration / nvalue
+    if np.ndim(duration) == 0:
+        durations = np.ones(nvalue) * float(duration) / nvalue
     elif len(duration) == nvalue:
         durations = np.asarray(duration)
     else:
